@@ -128,6 +128,7 @@ def check_stats(case, ctx):
         calls.update({
             "dm": lambda: sp.dm(), "dspr": lambda: sp.dspr(), "uss_x": lambda: sp.uss_x(depth=depth),
             "uss_y": lambda: sp.uss_y(depth=depth), "uss": lambda: sp.uss(depth=depth), "momd1": lambda: sp.momd(1),
+            "momd2": lambda: sp.momd(2), "momd0": lambda: sp.momd(0), "crsd": lambda: sp.crsd(), "fdspr": lambda: sp.fdspr(),
         })
     for name, fn in calls.items():
         with ctx.lib("spec.%s" % name):
@@ -203,6 +204,25 @@ def check_stats(case, ctx):
             lmc = np.asarray(_at(lib["momd1"][1], lead, idx), dtype=float).reshape(-1)
             if not (np.all(np.abs(lms - ms) <= 4 * rt * mabs + 1e-300) and np.all(np.abs(lmc - mc) <= 4 * rt * mabs + 1e-300)):
                 raise Violation("momd", "first directional moments differ from sum E sin/cos(270-theta) dd")
+            # higher directional moments, cross term and per-frequency spread
+            ang = np.radians(180.0 + 90.0 - dirs)
+            for mom, key in ((0, "momd0"), (2, "momd2")):
+                ws_, wc_ = np.sin(ang) ** mom, np.cos(ang) ** mom
+                rs_ = np.array([math.fsum((E[i] * ws_).tolist()) for i in range(len(f))]) * ref.dd
+                rc_ = np.array([math.fsum((E[i] * wc_).tolist()) for i in range(len(f))]) * ref.dd
+                l_s = np.asarray(_at(lib[key][0], lead, idx), dtype=float).reshape(-1)
+                l_c = np.asarray(_at(lib[key][1], lead, idx), dtype=float).reshape(-1)
+                if not (np.all(np.abs(l_s - rs_) <= 4 * rt * mabs + 1e-300) and np.all(np.abs(l_c - rc_) <= 4 * rt * mabs + 1e-300)):
+                    raise Violation("momd%d" % mom, "directional moment of order %d differs from sum E sin^n/cos^n(270-theta) dd" % mom)
+            rcr = np.array([math.fsum((E[i] * np.sin(ang) * np.cos(ang)).tolist()) for i in range(len(f))]) * ref.dd
+            lcr = np.asarray(_at(lib["crsd"], lead, idx), dtype=float).reshape(-1)
+            if not np.all(np.abs(lcr - rcr) <= 4 * rt * mabs + 1e-300):
+                raise Violation("crsd", "cross directional moment differs from sum E sin cos dd")
+            lfd = np.asarray(_at(lib["fdspr"], lead, idx), dtype=float).reshape(-1)
+            for i in range(len(f)):
+                if ref.S[i] > 0:
+                    radi = 1.0 - math.hypot(ms[i], mc[i]) / ref.S[i]
+                    _cmp_radicand("fdspr", float(lfd[i]), 2.0 * R.R2D**2 * radi, 4.0 * R.R2D**2, 8 * rt, lead, idx)
             if m0 > 0:
                 dmw, condw = ref.dm(weighted=True)
                 dmu, condu = ref.dm(weighted=False)
